@@ -379,6 +379,124 @@ pub fn check_key_lens(c: &KeyLens) -> CaseResult {
     pass(true, "key-field-lengths")
 }
 
+/// A structurally well-formed SubjectPublicKeyInfo / PKCS#8 PrivateKeyInfo around a genuine key whose optional and CHOICE-typed parts take every shape the
+/// ASN.1 modules allow (and a few they do not): which algorithm OID, what sits in the AlgorithmIdentifier parameters, what the inner ECPrivateKey carries.
+#[derive(Serialize, Deserialize, Hash, Debug, Clone)]
+pub struct KeyDocShape {
+    /// 0 id-ecPublicKey, 1 the SM2 curve OID used as algorithm, 2 rsaEncryption, 3 Ed25519, 4 zero-length OID, 5 id-ecDH
+    pub alg: u8,
+    /// 0 SM2 curve OID, 1 absent, 2 NULL, 3 prime256v1, 4 empty SEQUENCE, 5 SEQUENCE { INTEGER 1 } (explicit parameters), 6 INTEGER, 7 OCTET STRING, 8 SM2 OID followed by a second element, 9 zero-length OID
+    pub params: u8,
+    /// PKCS#8 only — ECPrivateKey [0] parameters: 0 absent, 1 SM2 OID, 2 NULL, 3 prime256v1, 4 empty
+    pub inner_params: u8,
+    /// PKCS#8 only — ECPrivateKey version: 1 (right), 0, 2
+    pub inner_version: u8,
+    /// PKCS#8 only — 0: no public key, 1: [1] public key present, 2: [1] present but holding an empty BIT STRING
+    pub inner_public: u8,
+    pub pem: bool,
+}
+
+pub fn check_key_doc_shape(c: &KeyDocShape) -> CaseResult {
+    let n = &r2::params().n;
+    let d = from_be(&expand_bytes(0xa5c2, 32)) % (n - 2u32) + 1u32;
+    let d32 = to32(&d);
+    let q = r2::g_mul(&d);
+    let q65 = r2::encode_uncompressed(&q);
+    const P256: &[u8] = &[0x2A, 0x86, 0x48, 0xCE, 0x3D, 0x03, 0x01, 0x07];
+    let alg_oid: Vec<u8> = match c.alg % 6 {
+        0 => der::OID_EC_PUBLIC_KEY.to_vec(),
+        1 => der::OID_SM2.to_vec(),
+        2 => vec![0x2A, 0x86, 0x48, 0x86, 0xF7, 0x0D, 0x01, 0x01, 0x01],
+        3 => vec![0x2B, 0x65, 0x70],
+        4 => vec![],
+        _ => vec![0x2B, 0x81, 0x04, 0x01, 0x0C],
+    };
+    let mut alg_parts = vec![der::tlv(0x06, &alg_oid)];
+    match c.params % 10 {
+        0 => alg_parts.push(der::tlv(0x06, der::OID_SM2)),
+        1 => {}
+        2 => alg_parts.push(der::tlv(0x05, &[])),
+        3 => alg_parts.push(der::tlv(0x06, P256)),
+        4 => alg_parts.push(der::seq(&[])),
+        5 => alg_parts.push(der::seq(&[der::integer(&BigUint::one())])),
+        6 => alg_parts.push(der::integer(&BigUint::from(7u32))),
+        7 => alg_parts.push(der::tlv(0x04, der::OID_SM2)),
+        8 => {
+            alg_parts.push(der::tlv(0x06, der::OID_SM2));
+            alg_parts.push(der::tlv(0x05, &[]));
+        }
+        _ => alg_parts.push(der::tlv(0x06, &[])),
+    }
+    let alg = der::seq(&alg_parts);
+    let standard_alg = c.alg % 6 == 0 && c.params % 10 == 0;
+    let shape = format!("alg#{} params#{} inner-params#{} inner-version#{} inner-public#{} {}", c.alg % 6, c.params % 10, c.inner_params % 5, c.inner_version % 3, c.inner_public % 3, if c.pem { "PEM" } else { "DER" });
+
+    // SubjectPublicKeyInfo
+    let mut bits = vec![0u8];
+    bits.extend_from_slice(&q65);
+    let spki = der::seq(&[alg.clone(), der::tlv(0x03, &bits)]);
+    let got = if c.pem {
+        let text = der::pem("PUBLIC KEY", &spki, "\n");
+        match outcome(|| Sm2PublicKey::from_public_key_pem(&text)) {
+            Outcome::Panic(p) => return fail(format!("entry=Sm2PublicKey::from_public_key_pem input=document-shape outcome=panic site={}", panic_site(&p)), format!("{}: {} -> {}", shape, hex::encode(&spki), p)),
+            Outcome::Ok(k) => {
+                match outcome(|| Sm2PublicKey::from_str(&text)) {
+                    Outcome::Panic(p) => return fail(format!("entry=Sm2PublicKey::from_str input=document-shape outcome=panic site={}", panic_site(&p)), format!("{}: {}", shape, p)),
+                    _ => {}
+                }
+                Some(k)
+            }
+            Outcome::Err(_) => None,
+        }
+    } else {
+        match outcome(|| Sm2PublicKey::from_public_key_der(&spki)) {
+            Outcome::Panic(p) => return fail(format!("entry=Sm2PublicKey::from_public_key_der input=document-shape outcome=panic site={}", panic_site(&p)), format!("{}: {} -> {}", shape, hex::encode(&spki), p)),
+            Outcome::Ok(k) => Some(k),
+            Outcome::Err(_) => None,
+        }
+    };
+    if let Some(k) = &got {
+        ensure!(pk_point(k)? == q, "entry=Sm2PublicKey::from_public_key_der input=document-shape outcome=wrong-point", "{}", shape);
+    }
+    if standard_alg {
+        ensure!(got.is_some(), "entry=Sm2PublicKey::from_public_key_der input=valid outcome=rejected", "{}", shape);
+    }
+
+    // PKCS#8 PrivateKeyInfo
+    let mut ec_parts = vec![der::integer(&BigUint::from([1u32, 0, 2][(c.inner_version % 3) as usize])), der::tlv(0x04, &d32)];
+    match c.inner_params % 5 {
+        0 => {}
+        1 => ec_parts.push(der::tlv(0xA0, &der::tlv(0x06, der::OID_SM2))),
+        2 => ec_parts.push(der::tlv(0xA0, &der::tlv(0x05, &[]))),
+        3 => ec_parts.push(der::tlv(0xA0, &der::tlv(0x06, P256))),
+        _ => ec_parts.push(der::tlv(0xA0, &[])),
+    }
+    match c.inner_public % 3 {
+        0 => {}
+        1 => ec_parts.push(der::tlv(0xA1, &der::tlv(0x03, &bits))),
+        _ => ec_parts.push(der::tlv(0xA1, &der::tlv(0x03, &[]))),
+    }
+    let p8 = der::seq(&[der::integer(&BigUint::zero()), alg, der::tlv(0x04, &der::seq(&ec_parts))]);
+    let entry = if c.pem { "Sm2PrivateKey::from_pkcs8_pem" } else { "Sm2PrivateKey::from_pkcs8_der" };
+    let o = if c.pem {
+        let text = der::pem("PRIVATE KEY", &p8, "\n");
+        outcome(|| Sm2PrivateKey::from_pkcs8_pem(&text))
+    } else {
+        outcome(|| Sm2PrivateKey::from_pkcs8_der(&p8))
+    };
+    match o {
+        Outcome::Panic(p) => return fail(format!("entry={} input=document-shape outcome=panic site={}", entry, panic_site(&p)), format!("{}: {} -> {}", shape, hex::encode(&p8), p)),
+        Outcome::Ok(sk) => {
+            ensure!(crate::refimpl::field::from_limbs(&sk.d) == d, format!("entry={} input=document-shape outcome=wrong-scalar", entry), "{}", shape);
+            ensure!(pk_point(&sk.public_key)? == q, format!("entry={} input=document-shape outcome=wrong-public-key", entry), "{}", shape);
+        }
+        Outcome::Err(e) => {
+            ensure!(!(standard_alg && c.inner_version % 3 == 0 && c.inner_params % 5 <= 1 && c.inner_public % 3 <= 1), format!("entry={} input=valid outcome=rejected", entry), "{}: {}", shape, e);
+        }
+    }
+    pass(!standard_alg || c.inner_params % 5 > 1 || c.inner_version % 3 != 0 || c.inner_public % 3 == 2, if standard_alg { "document-shape/standard-algorithm" } else { "document-shape/other-algorithm" })
+}
+
 /// An SM2Cipher document whose two INTEGERs have content lengths (lx, ly), whatever that does to their value
 #[derive(Serialize, Deserialize, Hash, Debug, Clone)]
 pub struct Asn1Lens {
@@ -676,6 +794,29 @@ pub fn run(ctx: &Ctx) {
 
     ctx.listed("edge_point_public_keys", "boundary points of the curve (x next to 0, n, p, powers of two, Montgomery limb patterns, y with a leading zero byte) as public keys: every decoder, re-encoding, SPKI", || (0..edge_points().len()).collect::<Vec<usize>>(), check_edge_public);
 
+    ctx.listed("near_curve_public_keys", "points off the curve but on a neighbouring equation with one constant changed (a+-1, a+2, a=0, a=+3, 2a, b+-1, b=0, -b), abscissas at representation boundaries incl. those where the Montgomery image of x, x^2 or x^3 is next to 0 or p, offered as uncompressed public keys to every decoder: all must refuse", || (0..near_curve_points().len()).collect::<Vec<usize>>(), |i: &usize| {
+        let (label, x, y) = &near_curve_points()[*i];
+        let mut enc = vec![4u8];
+        enc.extend_from_slice(&to32(x));
+        enc.extend_from_slice(&to32(y));
+        let doc = der::spki(&enc);
+        let pem = der::pem("PUBLIC KEY", &doc, "\n");
+        let tries: Vec<(&str, Outcome<()>)> = vec![
+            ("Sm2PublicKey::new", outcome(|| Sm2PublicKey::new(&enc).map(|_| ()))),
+            ("Sm2PublicKey::from_hex_string", outcome(|| Sm2PublicKey::from_hex_string(&hex::encode(&enc)).map(|_| ()))),
+            ("Sm2PublicKey::from_public_key_der", outcome(|| Sm2PublicKey::from_public_key_der(&doc).map(|_| ()))),
+            ("Sm2PublicKey::from_public_key_pem", outcome(|| Sm2PublicKey::from_public_key_pem(&pem).map(|_| ()))),
+        ];
+        for (entry, o) in tries {
+            match o {
+                Outcome::Ok(()) => return fail(format!("entry={} input=off-curve outcome=accepted input=near-curve", entry), format!("{} {}", label, hex::encode(&enc))),
+                Outcome::Panic(p) => return fail(format!("entry={} input=off-curve outcome=panic", entry), p),
+                Outcome::Err(_) => {}
+            }
+        }
+        pass(true, "near-curve")
+    });
+
     ctx.exhaustive("key_document_field_length_grid", "well-formed PKCS#8 envelopes whose private-key OCTET STRING has every length 0..=40 and whose public-key BIT STRING is absent or has every length 0..=70 (and the SPKI with that public key): never a panic; a key only when the scalar has 32 bytes", || {
         let mut v = Vec::new();
         for dlen in 0..=40usize {
@@ -689,6 +830,23 @@ pub fn run(ctx: &Ctx) {
         }
         v
     }, check_key_lens);
+
+    ctx.exhaustive("key_document_shapes", "SPKI and PKCS#8 documents (DER and PEM) around a genuine key with 6 algorithm OIDs x 10 AlgorithmIdentifier parameter shapes (curve OID, absent, NULL, another curve, empty / explicit SEQUENCE, INTEGER, OCTET STRING, extra element, empty OID) x ECPrivateKey parameter / version / public-key shapes: never a panic, an accepted document yields the embedded key, the standard shape is accepted", || {
+        let mut v = Vec::new();
+        for alg in 0..6u8 {
+            for params in 0..10u8 {
+                for pem in [false, true] {
+                    for inner in 0..45u8 {
+                        if !(alg == 0 && params <= 3) && inner % 7 != (alg + params) % 7 {
+                            continue;
+                        }
+                        v.push(KeyDocShape { alg, params, inner_params: inner % 5, inner_version: (inner / 5) % 3, inner_public: inner / 15, pem });
+                    }
+                }
+            }
+        }
+        v
+    }, check_key_doc_shape);
 
     ctx.exhaustive("asn1_integer_length_grid", "SM2Cipher documents whose x and y INTEGERs have every content length 0..=36 x 0..=36 (both flag values): never a panic; a plaintext only if it is the right one", || {
         let mut v = Vec::new();
